@@ -8,6 +8,7 @@ import (
 	"fmt"
 	"strings"
 
+	"github.com/caddyserver/caddy/v2/modules/caddyhttp"
 	"pgregory.net/rapid"
 )
 
@@ -124,7 +125,13 @@ func genMatcher(t *rapid.T, depth int, exclude map[string]bool) matcher {
 		return matcher{n, js}
 	case "remote_ip", "local_ip":
 		r := someOf(t, "range", 1, cidrs...)
-		return matcher{node{name: name, args: r}, obj{"ranges": strs(r...)}}
+		args, js := append([]string(nil), r...), strs(r...)
+		if rapid.IntRange(0, 3).Draw(t, "privateRanges") == 0 {
+			// the documented shorthand for the private address ranges
+			args = append(args, "private_ranges")
+			js = append(js, strs(caddyhttp.PrivateRangesCIDR()...)...)
+		}
+		return matcher{node{name: name, args: args}, obj{"ranges": js}}
 	case "socks4":
 		js := obj{}
 		var b []node
@@ -357,9 +364,33 @@ func genMatcher(t *rapid.T, depth int, exclude map[string]bool) matcher {
 			inner = append(inner, node{name: "alpn", args: s})
 			js["alpn"] = strs(s...)
 		}
-		if name == "tls" && rapid.IntRange(0, 3).Draw(t, "tlsRemoteIP") == 0 {
-			inner = append(inner, node{name: "remote_ip", args: []string{"10.0.0.0/8"}})
-			js["remote_ip"] = obj{"ranges": strs("10.0.0.0/8")}
+		if name == "tls" && rapid.IntRange(0, 2).Draw(t, "tlsRemoteIP") == 0 {
+			// remote_ip of the tls matcher: plain ranges, "!" for not_ranges, and the private_ranges shorthand in both
+			var args []string
+			var ranges, notRanges []any
+			for _, a := range someOf(t, "tlsRange", 1, "10.0.0.0/8", "!192.168.0.0/16", "private_ranges", "!private_ranges", "!2001:db8::/32") {
+				args = append(args, a)
+				neg := strings.HasPrefix(a, "!")
+				v := strings.TrimPrefix(a, "!")
+				vals := strs(v)
+				if v == "private_ranges" {
+					vals = strs(caddyhttp.PrivateRangesCIDR()...)
+				}
+				if neg {
+					notRanges = append(notRanges, vals...)
+				} else {
+					ranges = append(ranges, vals...)
+				}
+			}
+			inner = append(inner, node{name: "remote_ip", args: args})
+			rj := obj{}
+			if ranges != nil {
+				rj["ranges"] = ranges
+			}
+			if notRanges != nil {
+				rj["not_ranges"] = notRanges
+			}
+			js["remote_ip"] = rj
 		}
 		if len(inner) == 1 && rapid.Bool().Draw(t, "inline") {
 			return matcher{node{name: name, args: append([]string{inner[0].name}, inner[0].args...)}, js}
@@ -518,6 +549,13 @@ func genHandler(t *rapid.T, depth int) handler {
 				a2 := fmt.Sprintf("10.2.0.%d:8443", rapid.IntRange(1, 250).Draw(t, "uip2"))
 				u := obj{"dial": strs(a1, a2)}
 				b := []node{{name: "dial", args: []string{a1, a2}}}
+				var sameLine []string
+				if rapid.Bool().Draw(t, "sameLineDial") {
+					// "upstream <address> { dial ... }": same-line addresses are dial addresses too, in the order written
+					a0 := fmt.Sprintf("10.3.0.%d:9443", rapid.IntRange(1, 250).Draw(t, "uip0"))
+					sameLine = []string{a0}
+					u["dial"] = strs(a0, a1, a2)
+				}
 				if rapid.Bool().Draw(t, "maxConns") {
 					b = append(b, node{name: "max_connections", args: []string{"7"}})
 					u["max_connections"] = 7
@@ -544,7 +582,7 @@ func genHandler(t *rapid.T, depth int) handler {
 				if withTLS {
 					u["tls"] = tlsc
 				}
-				n.block = append(n.block, node{name: "upstream", block: b})
+				n.block = append(n.block, node{name: "upstream", args: sameLine, block: b})
 				ups = append(ups, u)
 			} else {
 				n.block = append(n.block, node{name: "upstream", args: []string{a1}})
